@@ -120,6 +120,10 @@ def snapshot(force=False):
         except Exception:
             pass
     snap = {"attrs": [], "names": [], "defaults": [], "caches": []}
+    # process-wide settings of numpy that library code can change
+    # (np.seterr without restoring it)
+    import numpy as np
+    snap["np_err"] = dict(np.geterr())
     for mod in _modules():
         for holder in _holders(mod):
             try:
@@ -203,6 +207,9 @@ def restore(prefix="nanite"):
                 cc()
             except Exception:
                 pass
+    import numpy as np
+    if dict(np.geterr()) != _SNAP["np_err"]:
+        np.seterr(**_SNAP["np_err"])
 
 
 def _stable(val, depth=0):
@@ -267,4 +274,7 @@ def fingerprint(prefix="nanite"):
                 continue
             diff.append(f"{mn}:{getattr(holder, '__name__', '')}.{name}:new="
                         f"{_stable(d[name])}")
+    import numpy as np
+    if dict(np.geterr()) != _SNAP["np_err"]:
+        diff.append("numpy:errstate=" + _stable(dict(np.geterr())))
     return "|".join(diff)
